@@ -251,6 +251,12 @@ func runPlz(repo *e2e.Repo, threads int, keepGoing bool, labels []string, timeou
 // runPlzNice: niceness > 0 runs the invocation at a lower scheduling priority (on a busy machine it then takes
 // longer over its work than the invocations that arrive later take to start up: a wider race window).
 func runPlzNice(repo *e2e.Repo, niceness, threads int, keepGoing bool, labels []string, timeout time.Duration) invRes {
+	return runPlzCtl(repo, niceness, threads, keepGoing, labels, timeout, nil)
+}
+
+// runPlzCtl: as runPlzNice; started (if not nil) is told the process group of the invocation once it runs, so that
+// the caller can hold it up (SIGSTOP / SIGCONT: a scheduling delay like any other) at a chosen moment.
+func runPlzCtl(repo *e2e.Repo, niceness, threads int, keepGoing bool, labels []string, timeout time.Duration, started func(pgid int)) invRes {
 	args := []string{"--plain_output", "-v", "1", "-n", fmt.Sprint(threads), "build"}
 	if keepGoing {
 		args = append(args, "--keep_going")
@@ -268,6 +274,9 @@ func runPlzNice(repo *e2e.Repo, niceness, threads int, keepGoing bool, labels []
 	res := invRes{startMs: time.Now().UnixMilli()}
 	if err := cmd.Start(); err != nil {
 		panic(err)
+	}
+	if started != nil {
+		started(cmd.Process.Pid)
 	}
 	done := make(chan error, 1)
 	go func() { done <- cmd.Wait() }()
@@ -809,7 +818,8 @@ func main() {
 			"as expected, the command ran once; copied-filegroup = a filegroup with binary = True (copied) over a directory of 12000 files / 1500 single files / one 32 MiB file, 3 invocations from " +
 			"an empty plz-out, the later ones started when the first (at niceness 19) has populated 3-20 % of the output, or staggered by random fractions of a single build: all exit 0, output tree = source tree; " +
 			"variant shared-file (model case CaseShared): 4 DIFFERENT binary filegroups re-exporting one 256 MiB source file (one output path, four target locks), 3-4 invocations building one each, " +
-			"the later ones started together when the first (at niceness 19) has opened its temporary file next to the destination: all exit 0, the output directory holds exactly the file. " +
+			"the later ones started together when the first (at niceness 10) has opened its temporary file next to the destination, the first being held (SIGSTOP) from that moment until " +
+			"the others have finished, so that their whole copy falls inside the first one's: all exit 0, the output directory holds exactly the file. " +
 			"distinct = distinct (repository, requests); non-trivial = at least one command is in the closure of two or more of the concurrent invocations")
 		base := e2e.Scratch("c31")
 		defer os.RemoveAll(base)
